@@ -17,6 +17,12 @@ package airgapped
 //@ ghost var $responsesOK bool
 //@ ghost var $keyrings int
 //@ ghost var $logged int
+//   $files = result files written (os.File.Write calls)
+//@ ghost var $files int
+//@ func (*os.File).Write
+//@   assumed
+//@   pure
+//@   epilogue $files = old($files) + 1
 //@ import client "github.com/lidofinance/dc4bc/client/types"
 //@ import dkg "github.com/lidofinance/dc4bc/dkg"
 
@@ -54,6 +60,8 @@ package airgapped
 //@   prologue $handled = false
 //@   modifies *
 //@   modifies $handlerErr, $dealsOK, $responsesOK, $keyrings, $logged, $reader, $readerSeed, $ciphers, $bufc
+//@   modifies $files
+//@   ensures[C12.publish] result1 == nil ==> $files == old($files) + 1
 //@   ensures[C12.log.once] $logged <= old($logged) + 1
 //@   ensures[C12.log.success] result1 != nil && !$handled ==> $logged == old($logged)
 //@   ensures[C12.log.replay] !storeOperation ==> $logged == old($logged)
